@@ -459,8 +459,13 @@ func (c *Ctx) owners() map[string]string {
 			continue
 		}
 		name := astFuncName(f)
+		if f.Signature.Recv() == nil {
+			// a plain function is only called dynamically if its address is taken somewhere,
+			// which the scan above records; CHA would add every caller of a matching func type
+			continue
+		}
 		for _, e := range node.In {
-			if e.Caller.Func == nil {
+			if e.Caller.Func == nil || !load.InModule(e.Caller.Func) {
 				continue
 			}
 			from := astFuncName(e.Caller.Func)
@@ -510,6 +515,10 @@ type foldBounds struct {
 	note    map[token.Pos]string // worst note per instruction
 	count   map[token.Pos]int
 	entries map[string]bool // astFuncName of entry functions explored totally
+	// the same for every other exploration of the check (bounded input domains)
+	bnote    map[token.Pos]string
+	bcount   map[token.Pos]int
+	bentries map[string]bool
 }
 
 // harvestBounds records the bounds notes of a total exploration of entry.
@@ -535,6 +544,51 @@ func (c *Ctx) harvestBounds(entry *ssa.Function, paths []*fold.Path) {
 			}
 		}
 	}
+}
+
+// noteExploration records the bounds notes of any exploration (bounded domain).
+func (c *Ctx) noteExploration(entry *ssa.Function, paths []*fold.Path) {
+	c.fb.mu.Lock()
+	defer c.fb.mu.Unlock()
+	if c.fb.bnote == nil {
+		c.fb.bnote, c.fb.bcount, c.fb.bentries = map[token.Pos]string{}, map[token.Pos]int{}, map[string]bool{}
+	}
+	c.fb.bentries[astFuncName(entry)] = true
+	rank := map[string]int{"proven": 0, "unproven": 1, "violated": 2}
+	for _, p := range paths {
+		worst := ""
+		if p.Abort != "" {
+			worst = "unproven" // whatever this path touched is not decided
+		}
+		for _, b := range p.Bounds {
+			n := b.Note
+			if worst != "" && rank[worst] > rank[n] {
+				n = worst
+			}
+			c.fb.bcount[b.Pos]++
+			if old, ok := c.fb.bnote[b.Pos]; !ok || rank[n] > rank[old] {
+				c.fb.bnote[b.Pos] = n
+			}
+		}
+	}
+}
+
+// decidedByBoundedFold: the site was executed by explorations of its own function (or of the
+// only caller chain of its function) and was in range on every execution. The explorations range
+// over bounded inputs (e.g. all separator positions for lengths 0..6): an argument by uniformity
+// in the input size, used only for sites the reviewed table does not know.
+func (c *Ctx) decidedByBoundedFold(s bceSite) (string, bool) {
+	c.fb.mu.Lock()
+	defer c.fb.mu.Unlock()
+	if !s.Lbrack.IsValid() || c.fb.bnote[s.Lbrack] != "proven" {
+		return "", false
+	}
+	for _, o := range c.ownerChain(s.Func) {
+		if c.fb.bentries[o] {
+			return fmt.Sprintf("in range on all %d executions of the site in the folds of %s (bounded input domains; every execution proven for the whole cell / symbolic content)", c.fb.bcount[s.Lbrack], o), true
+		}
+	}
+	return "", false
 }
 
 // decidedByFold reports whether the bounds site was executed by a total fold,
